@@ -536,6 +536,7 @@ def run(res: Results, idx: Index, tier: str) -> None:
     rule_d(res, idx, mods)
     rule_e(res, idx, mods)
     _controls(res, idx)
+    rule_f(res, idx)
 
 
 def _mypy_crosscheck(res: Results, idx: Index, sites: List[SetIteration]) -> None:
@@ -629,3 +630,75 @@ def _controls(res: Results, idx: Index) -> None:
     m = Mod("<control>", "<control>", "control_c14", src_txt)
     sts = [classify_set_iteration(idx, s)[0] for s in set_iterations(idx, [m])]
     res.control("R-C14b", "append-then-iterate and emit-in-set-loop are flagged; membership-only loop is not", sts == ["VIOLATION", "OK", "VIOLATION"], str(sts))
+
+
+# ---------------------------------------------------------------------------------------------- R-C14f
+def rule_f(res: Results, idx: Index) -> None:
+    """Once-per-process latches: a function that returns early when a module-level flag is set, and sets the flag after
+    doing its work, runs its work for the first conversion only.  That is fine for process-wide set-up (registering a
+    primitive, importing plugins) but not when the work is done ON an object of the current conversion (a parameter such
+    as the lowering context): the second conversion gets a fresh object that never receives it, so the same request
+    exports a different model later in the process."""
+    res.rule("R-C14f", "once-per-process latches do not guard work done on per-conversion objects", floor=1)
+    n = 0
+    for m in idx.product_modules():
+        if ".sandbox" in m.name:
+            continue
+        mod_flags = {t.id for st in m.tree.body if isinstance(st, (ast.Assign, ast.AnnAssign)) for t in (st.targets if isinstance(st, ast.Assign) else [st.target])
+                     if isinstance(t, ast.Name) and isinstance(getattr(st, "value", None), ast.Constant) and getattr(st, "value").value in (False, None)}
+        for fi in m.funcs.values():
+            globs = {nm for g in walk_no_nested(fi.node) if isinstance(g, ast.Global) for nm in g.names} & mod_flags
+            if not globs:
+                continue
+            for flag in sorted(globs):
+                early = [st for st in fi.node.body if isinstance(st, ast.If) and isinstance(st.test, ast.Name) and st.test.id == flag and any(isinstance(x, ast.Return) for x in st.body)]  # type: ignore[attr-defined]
+                sets = [st for st in walk_no_nested(fi.node) if isinstance(st, ast.Assign) and any(isinstance(t, ast.Name) and t.id == flag for t in st.targets) and isinstance(st.value, ast.Constant) and st.value.value is True]
+                if not early or not sets:
+                    continue
+                n += 1
+                a = fi.node.args  # type: ignore[attr-defined]
+                params = {x.arg for x in a.posonlyargs + a.args + a.kwonlyargs} - {"self", "cls"}
+                du = defuse(fi.node)
+                # work done on a parameter object: method calls / attribute stores / registrations through it
+                touched = set()
+                for x in walk_no_nested(fi.node):
+                    if isinstance(x, ast.Call):
+                        f_ = x.func
+                        recv = None
+                        if isinstance(f_, ast.Attribute):
+                            recv = f_.value
+                        elif isinstance(f_, ast.Name):
+                            # bound method fetched with getattr(param, "name") and called later
+                            for v in du.values(f_.id):
+                                if isinstance(v, ast.Call) and (call_name(v) or "") == "getattr" and v.args:
+                                    recv = v.args[0]
+                        if recv is not None and (names_in(recv) & params):
+                            touched |= names_in(recv) & params
+                    if isinstance(x, ast.Call) and (call_name(x) or "") == "setattr" and x.args and (names_in(x.args[0]) & params):
+                        touched |= names_in(x.args[0]) & params
+                key = f"{m.rel}::{fi.qualname}::latch::{flag}"
+                site = f"{m.rel}:{early[0].lineno}"
+                if touched:
+                    res.violation("R-C14f", site, key, f"`{fi.name}` does its work on its argument {sorted(touched)} but is latched by the process-wide flag `{flag}`: only the first conversion's object receives it, so the same export request yields a different model the second time", fi.qualname)
+                else:
+                    res.ok("R-C14f", site, key, f"`{flag}` guards process-wide set-up only", fi.qualname)
+    res.analysed["process_wide_latches"] = n
+    import textwrap
+    from ..index import Module as Mod
+    cm = Mod("<control>", "<control>", "control_c14f", textwrap.dedent("""
+        _DONE = False
+        def ensure(ctx):
+            global _DONE
+            if _DONE:
+                return
+            register = getattr(ctx, "register", None)
+            register("x")
+            _DONE = True
+    """))
+    tmp = Results("C14", "quick")
+    tmp.rule("R-C14f", "x", floor=0)
+    # reuse the loop above on the control module
+    f = cm.funcs["ensure"]
+    du = defuse(f.node)
+    got = any(isinstance(v, ast.Call) and (call_name(v) or "") == "getattr" for v in du.values("register"))
+    res.control("R-C14f", "a latch whose guarded body calls a method fetched from the parameter is recognised", got, "")
